@@ -120,7 +120,7 @@ def free_open_race_cases():
 
 def run(chk):
     cfg = pv.repo_config()
-    proof_ok, driver_ok, detail = pv.proof_stage(chk, ["PV.Props.C06"])
+    proof_ok, driver_ok, detail = pv.proof_stage(chk, ["PV.Props.C06", "PV.Props.C06sysv"])
     if any(d.startswith("extractor: ") and ("psemaphore" in d or "ipc" in d or "perror" in d) for d in detail):
         proof_ok = False
     exe = ipc.build(cfg)
@@ -162,15 +162,17 @@ def run(chk):
     for (n, v, it) in (((6, 1, 3000), (8, 3, 3000), (12, 2, 1500)) if thorough else ((3, 1, 400), (6, 2, 300))):
         ipc.run_stress(chk, exe, ["stress-sem", n, v, it], "C06 v-exclusion stress")
     # System V variant (psemaphore-sysv.c linked instead of the posix file): API-level histories against the spec column
-    ipc_sysv.run_c06(chk, cfg, ex)
+    Rs = ipc_sysv.run_c06(chk, cfg, ex)
+    if getattr(Rs, "new_violations", 0):
+        R.found = True      # a concrete System V replay was reported: no additional no-failing-input-found line
     R.conclude(DIRECTED + crash + eintr + ex[:400] + rnd, "C06 named semaphore")
     chk.cov["harness_leftovers_in_dev_shm"] = fam.leftovers
     chk.cov["rule"] = ("op files over 3 worker processes x 4 names (two differing only in the first byte, with a percent sign and non-ASCII bytes; two ~300 bytes long differing only in the last byte) x 16 handles: new OPEN/CREATE (init 0..3, 257, 300, 70000), acquire only when the model has a unit, release, take_ownership, free, SIGKILL of idle processes; "
                        "after every op the value of every name (drained through a fresh OPEN handle in an observer process%s), presence of /dev/shm/sem.<key> and the system calls made are compared with the model; "
                        "crash: SIGKILL before/after every system call of new/free/acquire/release (9 scenarios), then open/take_ownership/free/create(v); EINTR n<=6 at every k; "
                        "exhaustive: all legal call sequences of length %d on one name from two processes; distinct by op-file hash, non-trivial = more than one op; "
-                       "System V variant (harness/ipc_sysv.c, no model): the directed histories, a sample of the exhaustive sequences and random histories with SIGKILL of workers between calls, "
-                       "every answer and the value of every name after every op (drained through the API by an observer, cross-checked with semctl GETVAL) compared with the spec column where the statement determines it"
+                       "System V variant (harness/ipc_sysv.c, model PV.Model.IPCSysV, theorems PV.Props.C06sysv): the directed histories, a sample of the exhaustive sequences and random histories with SIGKILL of workers between calls, "
+                       "every answer and the value of every name after every op (drained through the API by an observer, cross-checked with semctl GETVAL) compared with the spec column where the statement determines it, and EVERY answer line (system calls with flags and results, observer views) with the System V model column, crash points at every system call of new/free/recreating acquire/release and EINTR scripts included"
                        % (", cross-checked with sem_getvalue" if thorough else "", depth))
     chk.assumptions += ipc.ASSUMPTIONS
     return chk.finish()
